@@ -306,6 +306,9 @@ type Program struct {
 	PkgVars []string `json:"pkg_vars,omitempty"` // raw declarations put in pkg 0's decl file
 	// PkgIdents: identifiers declared by PkgVars (so the renderer avoids them as import names).
 	PkgIdents []string `json:"pkg_idents,omitempty"`
+	// InjBlankImports / InjRaw: blank imports and raw declarations added to injector file 0.
+	InjBlankImports []string `json:"inj_blank_imports,omitempty"`
+	InjRaw          string   `json:"inj_raw,omitempty"`
 	// RawDriver: an Extra file provides func Scenarios() for pkg 0.
 	RawDriver bool `json:"raw_driver,omitempty"`
 	// RejectOK: rejection with a diagnostic is as acceptable as compilable output.
@@ -440,5 +443,7 @@ func (p *Program) Clone() *Program {
 	}
 	q.PkgVars = append([]string(nil), p.PkgVars...)
 	q.PkgIdents = append([]string(nil), p.PkgIdents...)
+	q.InjBlankImports = append([]string(nil), p.InjBlankImports...)
+	q.InjRaw = p.InjRaw
 	return q
 }
